@@ -1,6 +1,9 @@
 (* reads lines `(suite id input implobs)`, prints one verdict line per case *)
 let suites : (string * (Sexp.t -> Sexp.t -> Verdict.t)) list = [
   "c18", S_c18.run;
+  "sub", S_sub.run `C02;
+  "subsh", S_sub.run `C11;
+  "tm", S_sub.run_tm;
 ]
 
 let () =
